@@ -347,8 +347,42 @@ fn rop(r: &mut Rng) -> ROp {
     }
 }
 
+pub fn aop(r: &mut Rng) -> AOp {
+    let x = r.below(50) as u32;
+    match r.below(24) {
+        0..=5 => AOp::Push(x),
+        6 | 7 => AOp::Pop,
+        8 | 9 => AOp::Insert(pos(r), x),
+        10 | 11 => AOp::Remove(pos(r)),
+        12 | 13 => AOp::Extend(small(r), x),
+        14 => AOp::Truncate(pos(r)),
+        15 => AOp::Reserve(small(r)),
+        16 => AOp::ReserveExact(small(r)),
+        17 => AOp::ShrinkToFit,
+        18 => AOp::ShrinkTo(small(r)),
+        19 => {
+            if r.chance(1, 3) {
+                AOp::Clear
+            } else {
+                AOp::Dedup
+            }
+        }
+        20 => AOp::Resize(pos(r), x),
+        21 => AOp::SplitOff(pos(r)),
+        22 => AOp::IntoBoxedSliceAndBack,
+        _ => {
+            if r.chance(1, 2) {
+                AOp::CloneCmp
+            } else {
+                AOp::Recreate(small(r))
+            }
+        }
+    }
+}
+
 #[derive(Clone, Copy, PartialEq, Eq)]
 pub enum Focus {
+    AVec,
     Vec,
     Str,
     Boxes,
@@ -364,6 +398,7 @@ pub fn gen_w2(seed: u64, focus: Focus) -> W2Script {
     for i in 0..n_clients {
         let k = if i == 0 {
             match focus {
+                Focus::AVec => ClientKind::AVec,
                 Focus::Vec => ClientKind::Vec(*cfg.pick(&[VT::U8, VT::U32, VT::Tr, VT::Tr, VT::Big, VT::Zt])),
                 Focus::Str => ClientKind::Str,
                 Focus::Boxes => ClientKind::Boxes,
@@ -374,6 +409,7 @@ pub fn gen_w2(seed: u64, focus: Focus) -> W2Script {
                 0..=3 => ClientKind::Vec(*cfg.pick(&[VT::U8, VT::U32, VT::Tr, VT::Big, VT::Zt])),
                 4 | 5 => ClientKind::Str,
                 6 | 7 => ClientKind::Raw,
+                8 => ClientKind::AVec,
                 _ => ClientKind::Boxes,
             }
         };
@@ -391,6 +427,7 @@ pub fn gen_w2(seed: u64, focus: Focus) -> W2Script {
             ClientKind::Str => COp::S(sop(r)),
             ClientKind::Raw => COp::R(rop(r)),
             ClientKind::Boxes => COp::B(bop(r)),
+            ClientKind::AVec => COp::A(aop(r)),
         };
         steps.push((ci as u8, op));
     }
